@@ -1,153 +1,214 @@
-"""C11: WHERE the adapter loop takes its cut positions from, read from the AST of `gclmulchunker.__call__`.
+"""C11: WHERE the adapter loop takes its cut positions from (`gclmulchunker.__call__`, replicat/utils/adapters.py).
 
 C11 ("cuts after a boundary are a function of the content after that boundary") holds for the loop because every cut position is
 the value of the native `next_cut(buffer, final)` on the CURRENT buffer (`Chunker.lean::drain`).  A position computed in Python —
 from the previous chunk, a remembered length, a counter — makes a cut depend on the history before the boundary (low-entropy
 fast paths: "the run of identical data goes on, cut at the forced length again").
 
+`__call__` is EXECUTED symbolically (tools/symflow.py): locals are replaced by what they stand for, helper methods / static methods /
+nested or module-level functions and generator helpers used with `yield from` or iterated are inlined, conditional expressions and
+early exits are normalised, `for … in iter(callable, sentinel)` and walrus loops are understood.  The facts are then read from the
+event list, so they do not depend on names of locals or helpers, on where the code lives or on how the loop is spelt:
+
+* the BUFFER is whatever reaches the first argument of a `next_cut` call (through `memoryview(…)` / `bytes(…)` / `bytearray(…)`);
+* a CUT is a bound of a slice of (something that contains) the buffer, in any event: `yield bytes(buffer[:pos])`, `del buffer[:pos]`,
+  `buffer = buffer[pos:]`, …; in addition every `yield` must hand out such a slice (a chunk that is not cut off the buffer — the
+  incoming piece itself, a remembered block — is listed);
+* a cut is NATIVE iff its value is (through `int(…)`, conditional expressions, the neutral `0` / `None` / `False`) a `next_cut` call
+  on exactly the buffer that is sliced, made in the SAME iteration of all enclosing loops as the slice and with no `del` of the
+  buffer between the call and the use.  A value carried from an earlier iteration (`last = pos`), a `next_cut` result computed
+  before the loop and reused after the buffer was shortened, anything computed in Python is NOT native.
+
 Emitted (consumed by `ChunkerSync.lean::adapterRule` and `C11.adapter_cuts_native_only`):
 
-* `adapterCutsNotFromNextCut : List String` — the right-hand sides (source text) that can reach a slice bound of the reassembly
-  buffer (`buffer[:pos]`, `del buffer[:pos]`, `buffer = buffer[pos:]`, …) and are NOT a call `<obj>.next_cut(<buffer>, …)`;
-  aliases (`pos = p`), conditional expressions, walrus assignments and `int(...)` wrappers are followed, the neutral initialisers
-  `0` / `None` / `False` ("no cut") are ignored; an alias cycle (`last = pos … pos = last`) is a position carried over from an
-  EARLIER cut, i.e. from an earlier buffer, and is listed.  Empty for the loop this model mirrors.
-* `adapterNextCutOnCurrentBuffer : Bool` — every `next_cut` call gets the sliced buffer itself (a plain name, or
-  `memoryview(name)` / `bytes(name)` of it) as its first argument, not a part or an older copy of it.
-* `adapterCutAssignments : Nat` — how many bindings of the cut variable(s) were inspected (0 would mean: nothing recognised).
+* `adapterCutsNotFromNextCut : List String` — the cuts (as text of the resolved value) that are not native.  Empty for the loop
+  this model mirrors.
+* `adapterNextCutOnCurrentBuffer : Bool` — every `next_cut` call gets the reassembly buffer itself as its first argument, not a
+  part (`buffer[:n]`) of it.
+* `adapterCutAssignments : Nat` — how many distinct cut values were inspected (0 would mean: nothing recognised).
 
-No text matching: the buffer is whatever is passed to `next_cut`, the cut variables are whatever names occur in a slice bound of
-that buffer.  If there is no `next_cut` call or no slice of its buffer, the facts are emitted `opaque` and the dependent theorem
-stops compiling instead of assuming.
+If there is no `next_cut` call or no slice of its buffer, the facts are emitted `opaque` and the dependent theorem stops compiling
+instead of assuming.
 """
 import ast
 import json
 
-_NEUTRAL = (0, None, False)
-_WRAPPERS = {'int', 'bool', 'memoryview', 'bytes', 'bytearray'}
+import symflow as sf
 
-
-def _names(node):
-    return {n.id for n in ast.walk(node) if isinstance(n, ast.Name)}
+_WRAPPERS = {'memoryview', 'bytes', 'bytearray'}
+_MUTATORS = {'clear', 'pop', 'extend', 'append', 'insert', 'remove', 'reverse', '__iadd__', '__delitem__', '__setitem__'}
 
 
 def _lean_str(s):
     return json.dumps(' '.join(s.split())[:120], ensure_ascii=True)   # JSON escapes (\\", \\\\, \\uXXXX) are Lean string escapes too
 
 
-def _is_next_cut(node):
-    return isinstance(node, ast.Call) and isinstance(node.func, ast.Attribute) and node.func.attr == 'next_cut'
+def _strip(t):
+    while t[0] == 'call' and t[1][0] == 'global' and t[1][1] in _WRAPPERS and len(t[2]) == 1 and not t[3]:
+        t = t[2][0]
+    return t
 
 
-def _bindings(fn, name):
-    """values bound to `name` anywhere in fn (nested functions included): [(kind, value node or None)]"""
-    out = []
-    for n in ast.walk(fn):
-        if isinstance(n, ast.Assign):
-            for t in n.targets:
-                if isinstance(t, ast.Name) and t.id == name:
-                    out.append(('assign', n.value))
-                elif isinstance(t, (ast.Tuple, ast.List)) and name in _names(t):
-                    out.append(('unpack', n.value))
-        elif isinstance(n, ast.AnnAssign) and isinstance(n.target, ast.Name) and n.target.id == name and n.value is not None:
-            out.append(('assign', n.value))
-        elif isinstance(n, ast.AugAssign) and isinstance(n.target, ast.Name) and n.target.id == name:
-            out.append(('augmented', n))
-        elif isinstance(n, ast.NamedExpr) and n.target.id == name:
-            out.append(('assign', n.value))
-        elif isinstance(n, (ast.For, ast.AsyncFor, ast.comprehension)) and name in _names(n.target):
-            out.append(('loop', n.iter))
-        elif isinstance(n, ast.withitem) and n.optional_vars is not None and name in _names(n.optional_vars):
-            out.append(('with', n.context_expr))
-        elif isinstance(n, (ast.FunctionDef, ast.AsyncFunctionDef, ast.Lambda)):
-            a = n.args
-            if name in [x.arg for x in a.posonlyargs + a.args + a.kwonlyargs] and n is not fn:
-                out.append(('parameter', None))
-    return out
+def _is_next_cut(t):
+    return isinstance(t, tuple) and t and t[0] == 'call' and t[1][0] == 'attr' and t[1][2] == 'next_cut'
 
 
-def analyse(call):
-    """-> (foreign right-hand sides, next_cut on the current buffer?, bindings inspected) or None if not recognised"""
-    cuts = [n for n in ast.walk(call) if _is_next_cut(n)]
-    if not cuts:
+def _loops(ctx):
+    return tuple(c[1] for c in ctx if c[0] in ('for', 'while', 'comp', 'unrolled'))
+
+
+def _short(t):
+    s = sf.show(t)
+    return s if len(s) <= 100 else s[:97] + '...'
+
+
+def analyse_source(source, cls='gclmulchunker', fn='__call__'):
+    """-> (foreign cut sources, next_cut on the buffer itself?, cut values inspected) or None if not recognised"""
+    mod = sf.Module(source)
+    if cls not in mod.classes:
         return None
-    bufs, direct = set(), True
-    for c in cuts:
-        if not c.args:
-            return None
-        a = c.args[0]
-        while isinstance(a, ast.Call) and isinstance(a.func, ast.Name) and a.func.id in ('memoryview', 'bytes') and len(a.args) == 1:
-            a = a.args[0]
-        if isinstance(a, ast.Name):
-            bufs.add(a.id)
-        else:
-            direct = False
-            bufs |= _names(a)
-    cutvars = set()
-    for n in ast.walk(call):
-        if isinstance(n, ast.Subscript) and isinstance(n.slice, ast.Slice) and _names(n.value) & bufs:
-            for bound in (n.slice.lower, n.slice.upper):
-                if bound is not None:
-                    if isinstance(bound, ast.Constant):
-                        continue
-                    cutvars |= _names(bound) - {'self', 'len'} - bufs
-    if not cutvars:
+    interp = sf.Interp(mod, cls)
+    try:
+        evs, _ = interp.run(fn)
+    except sf.TooBig:
         return None
-    foreign, inspected, done = [], 0, set()
+    if evs is None:
+        return None
+    cut_calls = [e for e in evs if e.kind == 'call' and _is_next_cut(e.value) and not e.inside('deferred')]
+    if not cut_calls or any(not e.args for e in cut_calls):
+        return None
+    bufs = {_strip(e.args[0]) for e in cut_calls}
+    direct = all(not sf.contains(b, lambda s: s[0] in ('sub', 'slice')) for b in bufs)
+    atoms = set(bufs)
+    for b in bufs:
+        atoms |= {s for s in sf.subterms(b) if s[0] == 'carried'}
 
-    def classify(v, chain):
-        if v is None:
+    def on_buffer(t):
+        return sf.contains(t, lambda s: s in atoms)
+
+    # events that `iter(callable, sentinel)` emits for the callable belong to the iteration of that loop
+    extra_loop = {}
+    for lid, loop in interp.loops.items():
+        if loop.kind != 'iter-sentinel':
+            continue
+        inside = [e.seq for e in evs if ('for', lid) in [c[:2] for c in e.ctx]]
+        if not inside:
+            continue
+        first = min(inside)
+        start = max([e.seq for e in evs if e.seq < first and e.kind == 'call' and e.callee == ('global', 'iter')] or [first])
+        for e in evs:
+            if start < e.seq < first:
+                extra_loop[e.seq] = lid
+
+    def loops_of(e):
+        ls = _loops(e.ctx)
+        return ls + (extra_loop[e.seq],) if e.seq in extra_loop else ls
+
+    def mutation_between(lo, hi):
+        for e in evs:
+            if not lo < e.seq < hi:
+                continue
+            if e.kind == 'delete' and on_buffer(e.value):
+                return True
+            if e.kind == 'store' and on_buffer(e.value):
+                return True
+            if e.kind == 'call' and e.callee[0] == 'attr' and e.callee[2] in _MUTATORS and _strip(e.callee[1]) in bufs:
+                return True
+        return False
+
+    def carried_native(v, base, use):
+        lid, name = v[1], v[2]
+        loop = interp.loops.get(lid)
+        if loop is None or loops_of(use)[-1:] != (lid,):
+            return False
+        ini, nxt = loop.init.get(name), loop.next.get(name)
+        for t in (ini, nxt):
+            if t is None or not _is_next_cut(t) or not t[2] or _strip(t[2][0]) != base:
+                return False
+        body = [e.seq for e in evs if lid in _loops(e.ctx)]
+        if not body:
+            return False
+        lo, hi = min(body), max(body)
+        c0 = [e for e in cut_calls if e.value == ini and e.seq < lo]
+        c1 = [e for e in cut_calls if e.value == nxt and lo <= e.seq <= hi and loops_of(e) == loops_of(use)]
+        if not c0 or not c1 or loops_of(c0[-1]) != loops_of(use)[:-1]:
+            return False
+        return not (mutation_between(c0[-1].seq, use.seq) or mutation_between(lo - 1, use.seq) or mutation_between(c1[-1].seq, hi + 1))
+
+    foreign, seen = [], set()
+
+    def classify(v, base, use):
+        if sf.is_const(v) and v[1] in (0, None, False):
             return
-        if isinstance(v, ast.Constant) and v.value in _NEUTRAL and type(v.value) in (int, bool, type(None)):
+        if v[0] == 'phi':
+            classify(v[2], base, use)
+            classify(v[3], base, use)
             return
-        if isinstance(v, ast.IfExp):
-            classify(v.body, chain)
-            classify(v.orelse, chain)
+        if v[0] == 'join':
+            for a in v[2]:
+                classify(a, base, use)
             return
-        if isinstance(v, ast.NamedExpr):
-            classify(v.value, chain)
+        if v[0] == 'call' and v[1] == ('global', 'int') and len(v[2]) == 1 and not v[3]:
+            classify(v[2][0], base, use)
             return
-        if isinstance(v, ast.Call) and isinstance(v.func, ast.Name) and v.func.id in ('int',) and len(v.args) == 1 and not v.keywords:
-            classify(v.args[0], chain)
-            return
-        if isinstance(v, ast.Name):
-            if v.id in chain:
-                # `last = pos … pos = last`: a position carried over from an EARLIER cut (an earlier buffer), not next_cut on this one
-                foreign.append(f'{chain[-1]} = {v.id} (carried over from an earlier cut)')
-            else:
-                resolve(v.id, chain)
+        seen.add(v)
+        if v[0] == 'carried':
+            # `n = next_cut(buf); while n: …use n…; n = next_cut(buf)`: the value enters every iteration fresh from a call that
+            # nothing separates from the use
+            if not carried_native(v, base, use):
+                foreign.append(f'{v[2]} (carried over from an earlier iteration)')
             return
         if _is_next_cut(v):
+            if not v[2] or _strip(v[2][0]) != base:
+                foreign.append(f'next_cut on another buffer than the one sliced: {_short(v)}')
+                return
+            made = [e for e in cut_calls if e.value == v and e.seq < use.seq]
+            if not made:
+                foreign.append(f'next_cut value used before / without its call: {_short(v)}')
+                return
+            c = made[-1]
+            if loops_of(c) != loops_of(use):
+                foreign.append(f'next_cut value from another iteration: {_short(v)}')
+            elif mutation_between(c.seq, use.seq):
+                foreign.append(f'buffer shortened between next_cut and the use of its value: {_short(v)}')
             return
-        foreign.append(ast.unparse(v))
+        foreign.append(_short(v))
 
-    def resolve(name, chain):
-        nonlocal inspected
-        if name in done:
-            return
-        bs = _bindings(call, name)
-        if not bs:
-            # a name that is never bound inside the function (an attribute holder, a global): not a cut computed by next_cut
-            foreign.append(name)
-        for kind, v in bs:
-            inspected += 1
-            if kind == 'assign':
-                classify(v, chain + [name])
-            elif kind == 'augmented':
-                foreign.append(ast.unparse(v))
-            else:
-                foreign.append(f'{kind}: {ast.unparse(v) if v is not None else name}')
-        done.add(name)
+    def slices_in(e):
+        vals = [e.value] + ([e.extra] if e.kind == 'store' and isinstance(e.extra, tuple) else [])
+        return [s for val in vals for s in sf.subterms(val) if s[0] == 'sub' and s[2][0] == 'slice' and on_buffer(s[1])]
 
-    for name in sorted(cutvars):
-        resolve(name, [])
-    return sorted(set(foreign)), direct, inspected
+    def evaluates_slice(e):
+        # does the statement / expression of this event spell a slice itself (or only mention a value that was sliced earlier)?
+        return e.node is None or any(isinstance(n, ast.Slice) for n in ast.walk(e.node))
+
+    live = [e for e in evs if not e.inside('deferred')]
+    first_use = {}
+    for e in live:
+        for s in slices_in(e):
+            if s not in first_use or (not evaluates_slice(first_use[s]) and evaluates_slice(e)):
+                first_use[s] = e
+    nslices = 0
+    for e in live:
+        for s in slices_in(e):
+            use = e if evaluates_slice(e) else first_use[s]
+            base = _strip(s[1])
+            for bound in (s[2][1], s[2][2]):
+                if bound != sf.NONE:
+                    nslices += 1
+                    classify(bound, base, use)
+        if e.kind == 'yield':
+            y = _strip(e.value)
+            if not (y[0] == 'sub' and y[2][0] == 'slice' and on_buffer(y[1])):
+                foreign.append(f'yield of something that is not cut off the buffer: {_short(e.value)}')
+    if not nslices:
+        return None
+    return sorted(set(foreign)), direct, len(seen)
 
 
 def section(ctx):
     asrc = (ctx.REPO / 'replicat' / 'utils' / 'adapters.py').read_text()
-    call = ctx.find_func(ast.parse(asrc), 'gclmulchunker', '__call__')
-    res = analyse(call) if call is not None else None
+    res = analyse_source(asrc)
     if res is None:
         ctx.emit('opaque adapterCutsNotFromNextCut : List String')
         ctx.emit('opaque adapterNextCutOnCurrentBuffer : Bool')
